@@ -1937,7 +1937,7 @@ def accw_toggle_part(run, r, runner, n):
 
 
 def tsf_tie_part(run, r, runner, n):
-    """timeStepFactor 2, 3, 5 on restraints with fixed, continuously moving and staged centres, every segmentation: the extracted
+    """timeStepFactor 2, 3, 5 on every restraint kind and schedule (centres or force constant; continuous, staged, lambdaSchedule), every segmentation: the extracted
     protocol run_tsf (coq/C06/RestraintTSF.v) against the implementation after every event (centres, stage, first step), and
     the closed form of C06_center_schedule_timestepfactor: centre = schedule at the last updated step."""
     cases = []
@@ -1945,7 +1945,7 @@ def tsf_tie_part(run, r, runner, n):
     while len(cases) < n and tries < 60 * n:
         tries += 1
         c = gen_case(r, len(cases))
-        if c["kind"] == "walls" or c["mode"] not in ("none", "cc", "cs") or c["it0"] > 2 ** 40:
+        if c["it0"] > 2 ** 40:
             continue
         c["accw"] = False
         c["tsf"] = r.choice([2, 3, 5])
@@ -1957,7 +1957,7 @@ def tsf_tie_part(run, r, runner, n):
         out = []
         inbias = False
         for l in L:
-            if l.startswith(("harmonic {", "linear {")):
+            if l.startswith(("harmonic {", "linear {", "harmonicWalls {")):
                 inbias = True
             if inbias and l == "}":
                 out.append("  timeStepFactor %d" % c["tsf"])
@@ -1992,10 +1992,12 @@ def tsf_tie_part(run, r, runner, n):
                     break
             if j < len(recs) and bad is None:
                 d_ = recs[j]
-                mc = flist(d_["C"])
-                if int(d_["it"]) != t or int(d_["ST"]) != o["ST"] or (c["mode"] != "none" and int(d_["FS"]) != o["FS"]) or \
-                   not all(same_mod(a, b, v) for a, b, v in zip(mc, o["C"], c["vars"])):
-                    bad = "event %d step %d: centres/stage/first impl %r %d %d, model %r %s %s" % (j, t, o["C"], o["ST"], o["FS"], mc, d_["ST"], d_["FS"])
+                mc = flist(d_["C"]) if c["kind"] != "walls" else []
+                if int(d_["it"]) != t or (c["mode"] != "none" and (int(d_["ST"]) != o["ST"] or int(d_["FS"]) != o["FS"])) or \
+                   not all(same_mod(a, b, v) for a, b, v in zip(mc, o["C"], c["vars"])) or \
+                   (o["K"] is not None and not close(float.fromhex(d_["K"]), o["K"])) or not close(float.fromhex(d_["FE"]), o["FE"]):
+                    bad = "event %d step %d: centres/k/stage/first/FE impl %r %r %d %d %r, model %r %r %s %s %r" % (
+                        j, t, o["C"], o["K"], o["ST"], o["FS"], o["FE"], mc, float.fromhex(d_["K"]), d_["ST"], d_["FS"], float.fromhex(d_["FE"]))
         if len(recs) != len(cs["steps"]):
             bad = bad or "model executed %d events, implementation %d" % (len(recs), len(cs["steps"]))
         if bad:
